@@ -4,7 +4,7 @@ CONSTANTS
   Keys = {1, 2, 3, 4, 5}
   ForeignKeys = {4, 5}
   KindOf <- MCKindOf
-  ScriptChoices <- ScrAll
+  ScriptChoices <- ScrRace
   NItems = 2
   NH = 3
   MaxObj = 3
@@ -14,6 +14,6 @@ CONSTANTS
   GiveUp = TRUE
   PreCheckClosed = TRUE
   NilPacketSock = TRUE
-  CloseWaits = TRUE
+  CloseWaits = FALSE
 INVARIANTS NoBadEvent CleanAfterAllClosed
 VIEW View
